@@ -51,7 +51,7 @@ def __getitem__(self, indx):
         if np.shape(self._mask_):               # self-mask is array
             result_mask = self._mask_[pre_index]
         else:                                   # self-mask is True or False
-            result_mask = post_mask or self._mask_
+            result_mask = self._mask_
     elif np.all(post_mask):                     # post-mask is True
         result_mask = True
     else:                                       # post-mask is array
